@@ -69,6 +69,33 @@ struct InterMonitor : Monitor {
   std::map<std::string, int> seen;
   GammaOpts full, cheap;
   bool check_blocks = true, check_summaries = true;
+  // Calling contexts. When the entry state of a callee activation is not described by
+  // the callee's entry invariant the *calling context is not covered* by the analysis
+  // (what known findings KF28 / KF2 produce). Everything that happens inside such an
+  // activation is a consequence and is not judged; the event is kept as a pending
+  // violation of its own monitor ("context_not_covered") and the execution goes on, so
+  // that a violation that is not a matter of context coverage (a wrong summary, an
+  // unsound caller continuation, an unsound block inside a covered activation) is
+  // still found and reported in preference.
+  int uncovered_depth = 1 << 30;
+  bool have_pending = false;
+  Violation pending;
+  std::string pending_trace;
+  bool context_only = false;          // C02i: block invariants are only used for context coverage
+  VerdictMonitor *verdicts = nullptr; // C02i: verdicts are judged in covered activations
+  void begin_run() { uncovered_depth = 1 << 30; }
+  bool on_assert(Machine &m, Frame &f, const std::string &label, stmt_t &s, int64_t id,
+                 bool holds) override {
+    if (!verdicts)
+      return true;
+    if (inside_uncovered(f)) {
+      // a verdict that is wrong only in a calling context the analysis did not cover
+      // is the context's business: judged as part of "context_not_covered"
+      return true;
+    }
+    return verdicts->on_assert(m, f, label, s, id, holds);
+  }
+  bool inside_uncovered(const Frame &f) const { return f.depth >= uncovered_depth; }
   // functions whose invariants are meaningful (analysed from the chosen roots)
   InterMonitor(const Case &c, const DomainInfo &d, Stats &s, Outcome &o)
       : cs(c), di(d), st(s), out(o) {
@@ -80,6 +107,11 @@ struct InterMonitor : Monitor {
   bool check(Machine &m, Frame &f, const std::string &label, bool is_pre) {
     if (!check_blocks)
       return true;
+    if (inside_uncovered(f))
+      return true;
+    bool callee_entry = is_pre && f.depth > 0 && label == f.fn->cfg->entry();
+    if (context_only && !callee_entry)
+      return true;
     std::string key = f.fn->src->name + ":" + label + (is_pre ? ":pre" : ":post");
     auto it = cache.find(key);
     if (it == cache.end())
@@ -90,12 +122,25 @@ struct InterMonitor : Monitor {
     n++;
     st.inc("gamma_checks");
     if (!g.ok) {
+      Violation v;
+      v.property = cs.property;
+      v.monitor = callee_entry ? "context_not_covered" : (is_pre ? "pre_invariant" : "post_invariant");
+      v.item = g.item;
+      v.where = f.fn->src->name + ":" + label + " depth=" + std::to_string(f.depth) +
+                (m.stack_has_recursion() ? " rec=1" : " rec=0");
+      v.detail = g.detail + " ; invariant=" + it->second->str();
+      if (callee_entry) {
+        st.inc("calling_contexts_not_covered");
+        uncovered_depth = f.depth;
+        if (!have_pending) {
+          have_pending = true;
+          pending = v;
+          pending_trace = trace_of(m);
+        }
+        return true; // go on: the callers' continuations are still judged
+      }
       out.violated = true;
-      out.v.property = cs.property;
-      out.v.monitor = is_pre ? "pre_invariant" : "post_invariant";
-      out.v.item = g.item;
-      out.v.where = f.fn->src->name + ":" + label + " depth=" + std::to_string(f.depth);
-      out.v.detail = g.detail + " ; invariant=" + it->second->str();
+      out.v = v;
       return false;
     }
     return true;
@@ -107,7 +152,10 @@ struct InterMonitor : Monitor {
     return check(m, f, l, false);
   }
   bool on_return(Machine &m, Frame &, Frame &callee, const Store &entry, stmt_t &) override {
-    if (!check_summaries)
+    bool was_uncovered = inside_uncovered(callee);
+    if (callee.depth <= uncovered_depth)
+      uncovered_depth = 1 << 30; // the uncovered activation returns
+    if (!check_summaries || was_uncovered)
       return true;
     return check_summary(m, callee, entry);
   }
@@ -185,7 +233,7 @@ struct InterMonitor : Monitor {
 
 // run executions from the given entry functions
 template <class F>
-void run_inter_execs(const Case &c, const DomainInfo &di, CrabProgram &cp, Monitor &mon,
+void run_inter_execs(const Case &c, const DomainInfo &di, CrabProgram &cp, InterMonitor &mon,
                      Stats &st, Outcome &out, uint64_t &h, const std::vector<std::string> &roots,
                      F after_run) {
   std::vector<mpz_class> pool;
@@ -198,6 +246,7 @@ void run_inter_execs(const Case &c, const DomainInfo &di, CrabProgram &cp, Monit
     CrabFunction *root = cp.func(roots[(size_t)e % roots.size()]);
     if (!root)
       continue;
+    mon.begin_run();
     EndReason er = m.run(*root, Store());
     account_run(st, m, er);
     long calls = 0;
@@ -209,6 +258,11 @@ void run_inter_execs(const Case &c, const DomainInfo &di, CrabProgram &cp, Monit
     if (out.violated)
       out.trace = trace_of(m);
     after_run(m, er);
+  }
+  if (!out.violated && mon.have_pending) {
+    out.violated = true;
+    out.v = mon.pending;
+    out.trace = mon.pending_trace;
   }
 }
 
@@ -411,13 +465,28 @@ Outcome check_c02i(const Case &c, Stats &st) {
   for (auto &kv : cr.by_id)
     for (auto v : kv.second)
       h = hash_combine(h, (uint64_t)kv.first * 8 + (uint64_t)v);
-  VerdictMonitor mon(cr, c, out);
-  run_inter_execs(c, *di, *cp, mon, st, out, h,
-                  topdown ? roots_of(c, entries) : std::vector<std::string>{"main"},
-                  [](Machine &, EndReason) {});
-  st.inc("assertions_judged", mon.judged);
-  st.inc("assertions_judged_safe_verdict", mon.judged_safe);
-  st.inc("assertions_reached_false", mon.reached_false);
+  VerdictMonitor vmon(cr, c, out);
+  GuardResult mg = guarded(-1, [&]() {
+    InterMonitor mon(c, *di, st, out);
+    mon.context_only = true;
+    mon.check_summaries = false;
+    mon.verdicts = &vmon;
+    mon.inv = [&](CrabFunction &f, const std::string &l, bool is_pre) {
+      if (topdown)
+        return is_pre ? td->pre(f, l) : td->post(f, l);
+      return is_pre ? bu->pre(f, l) : bu->post(f, l);
+    };
+    run_inter_execs(c, *di, *cp, mon, st, out, h,
+                    topdown ? roots_of(c, entries) : std::vector<std::string>{"main"},
+                    [](Machine &, EndReason) {});
+  });
+  if (!mg.ok && !out.violated) {
+    out.refusal = "query failed: " + mg.msg;
+    st.inc("refused_in_monitor");
+  }
+  st.inc("assertions_judged", vmon.judged);
+  st.inc("assertions_judged_safe_verdict", vmon.judged_safe);
+  st.inc("assertions_reached_false", vmon.reached_false);
   st.result_hashes.push_back(h);
   out.hash = h;
   return out;
